@@ -82,7 +82,13 @@ def make_server(spec, result):
             else:
                 raw = text.encode(enc)
         if k == "none":
-            pass
+            if spec.get("empty_errors") is not None and isinstance(good, dict) and "errors" not in good:
+                # (servers that always emit the entry: an empty list - or null - reports no error)
+                good2 = dict(good)
+                good2["errors"] = [] if spec["empty_errors"] == "list" else None
+                raw = json.dumps(good2, ensure_ascii=bool(spec.get("ensure_ascii", True))).encode()
+                if enc and enc != "latin1-label":
+                    raw = raw.decode("utf-8").encode(enc)
         elif k == "status":
             status = fault["status"]
             if fault.get("body") is not None:
